@@ -23,7 +23,7 @@ ASSUMPTIONS = ['index tuples shorter than the order without an Ellipsis (partial
 
 
 def BOUNDS(tier):
-    return {'max_order': 3 if tier == 'quick' else 4, 'none_insertions': '0..2', 'ellipsis': 'leading or trailing',
+    return {'max_order': 3 if tier == 'quick' else 4, 'none_insertions': '0..2 (order 3: 0..1 in the quick tier)', 'ellipsis': 'leading or trailing',
             'apply_mask_rows': '1, 2, all'}
 
 
@@ -68,7 +68,7 @@ def cases(tier, seed):
     for N, R in _structs(tier):
         d = len(N)
         base_ix = list(itertools.product(*[_alphabet(n) for n in N]))
-        maxnone = 2 if d <= 3 else 1
+        maxnone = 2 if (d <= 2 or (d == 3 and tier == 'thorough')) else 1
         for ix in base_ix:
             ix = list(ix)
             variants = [ix]
@@ -122,6 +122,14 @@ def cases(tier, seed):
                     per.append(ints + sls)
                 for combo in itertools.product(*per):
                     yield {'g': 'op', 'M': M, 'N': N, 'R': R, 'ix': [c[0] for c in combo] + [c[1] for c in combo], 's': salt, 'dt': 'f64'}
+                # a (None, None) pair inserted at every position (new (1,1) mode), thinner sweep over the other indices
+                for combo in list(itertools.product(*per))[::5]:
+                    for pos in range(d + 1):
+                        rows = [c[0] for c in combo]
+                        cols = [c[1] for c in combo]
+                        rows.insert(pos, 'N')
+                        cols.insert(pos, 'N')
+                        yield {'g': 'op', 'M': M, 'N': N, 'R': R, 'ix': rows + cols, 's': salt, 'dt': 'f64'}
     # apply_mask
     for N, R in _structs(tier):
         numel = int(np.prod(N))
